@@ -270,6 +270,38 @@ func ruleLeaveCallers(r *Run) {
 			r.CheckT("E2", "guard["+fn.Name+"]", guarded, path.Events[i].Pos, path, "leaving is attempted only for a connection that has a participant")
 		}
 	}
+	// a join that proceeds leaves the session the connection is in, before it is added to the new one
+	addP := r.fn(pkgModels, "Session", "AddParticipant")
+	if jf := r.P.FuncByName("websocket.(*RealtimeHandler).HandleParticipantJoin"); jf != nil && addP != nil {
+		nJoin := 0
+		for _, path := range r.Paths(jf) {
+			iAdd := idxOfCall(&path, addP, 0)
+			if iAdd < 0 {
+				continue
+			}
+			nJoin++
+			had := ""
+			for j := 0; j < iAdd; j++ {
+				if path.Events[j].Kind == EvGuard {
+					g := r.Classify(&path, j)
+					if g.Subject == "joined:currentParticipant" {
+						had = g.Outcome
+					}
+				}
+			}
+			iLeave := idxOfCall(&path, leave, 0)
+			switch had {
+			case "yes":
+				r.CheckT("E2", jf.Name+":switch-leaves-first", iLeave >= 0 && iLeave < iAdd, path.Events[iAdd].Pos, &path,
+					"a connection that is in a session and joins another one leaves the old session (entities, subscriptions, membership) before it becomes a member of the new one")
+			case "no":
+				r.CheckT("E2", jf.Name+":fresh-join", iLeave < 0, path.Events[iAdd].Pos, &path, "a connection that is in no session joins without leaving anything")
+			default:
+				r.CheckT("E2", jf.Name+":join-tests-membership", false, path.Events[iAdd].Pos, &path, "a join becomes a member of the new session without testing whether the connection is still in another one")
+			}
+		}
+		r.Floor("E2", "join paths that add the participant", nJoin, 2)
+	}
 	// the disconnect handler must reach it
 	hd := r.P.FuncByName("websocket.(*RealtimeHandler).HandleDisconnect")
 	if hd == nil {
@@ -388,7 +420,10 @@ func ruleModuleCleanup(r *Run) {
 				}
 			}
 			if lookup == "" {
-				continue // decode error path
+				// decode error path: nothing may be removed without consulting the session
+				r.CheckT("E3", fmt.Sprintf("%s:path[no-lookup]", del.Name), !removed, del.Body.Pos(), path,
+					"per-entity state is dropped without checking that the entity is really gone: a refused deletion (foreign or unknown entity) still wipes it")
+				continue
 			}
 			r.CheckT("E3", fmt.Sprintf("%s:path[%s]", del.Name, lookup), removed == (lookup == "miss") && (!removed || argOK), del.Body.Pos(), path,
 				"after the core handler ran, per-entity state is dropped exactly when the entity is gone (lookup %s, removed %v)", lookup, removed)
